@@ -247,8 +247,12 @@ def make_archive(case, seed=0):
     if case["kind"] == "cvt":
         c = case["cvt"]
         cents = np.array([[float(fr(x)) for x in p] for p in c["cents"]], dtype=dt)
-        return CVTArchive(cells=len(cents), ranges=ranges, custom_centroids=cents, use_kd_tree=c.get("kd", True),
-                          chunk_size=c.get("chunk"), **kw, **common)
+        ckw = {}
+        if not c.get("kd", True):           # the default (k-D tree, no chunking) is left to the constructor
+            ckw["use_kd_tree"] = False
+        if c.get("chunk") is not None:
+            ckw["chunk_size"] = c["chunk"]
+        return CVTArchive(cells=len(cents), ranges=ranges, custom_centroids=cents, **ckw, **kw, **common)
     if case["kind"] == "sb":
         return SlidingBoundariesArchive(dims=case["dims"], ranges=ranges, remap_frequency=10**9,
                                         buffer_capacity=4, **common)
